@@ -218,6 +218,23 @@ func main() {
 		} {
 			checkMeaningless(r, c.p, c.f)
 		}
+		// repetition ranges whose minimum exceeds the maximum, with counts of every digit length
+		counts := []string{"0", "1", "2", "9", "10", "99", "100", "999", "1000", "1001", "9999", "10000", "10001", "10005", "99999", "100000", "1000999", "4294967296", "18446744073709551616", "99999999999999999999"}
+		val := func(s string) float64 {
+			v := 0.0
+			for _, c := range s {
+				v = v*10 + float64(c-'0')
+			}
+			return v
+		}
+		for _, lo := range counts {
+			for _, hi := range counts {
+				if val(lo) > val(hi) {
+					p := "a{" + lo + "," + hi + "}"
+					checkMeaningless(r, p, []string{"{" + lo + "," + hi + "}", "repetition"})
+				}
+			}
+		}
 		checkString(r, "", "empty", false)
 	}
 	r.Assume("membership in the documented grammar is decided as a context-free grammar (any derivation); `char` is read as any character, the most permissive reading")
